@@ -14,7 +14,7 @@ CHECKS = {
             "(Hang example = former defect F5); END-TO-END never-raise theorems for the shipped decoders on every input, with regex-shape facts discharged by vm_compute of a verified exploration on the regex terms regenerated from the source "
             "(so the fixed defects F1-F5, F7, F21 cannot recur unnoticed). The whole default registry (30 decoders on the model's regex matcher + 127 keyword files + engine) is compared with Multidecoder().scan on generated and malformed inputs; "
             "the implementation is additionally run with a watchdog on a large corpus and every read-only view is exercised.",
-            "PARTIAL: time inside the regex engine (catastrophic backtracking), interpreter limits (recursion, memory), exceptions inside pefile other than PEFormatError and xortool's float code are outside the model; pefile / xortool are oracles. "
+            "Known finding F26 (about 1000 nested undecoded contexts make the recursive views raise RecursionError) is reported as KNOWN-FINDING. PARTIAL: time inside the regex engine (catastrophic backtracking), interpreter limits (recursion, memory), exceptions inside pefile other than PEFormatError and xortool's float code are outside the model; pefile / xortool are oracles. "
             "Decoder theorems are disjunctions `Hang or Ok` (Hang = matcher fuel of the model).", "4 C01"),
     "C02": ("Coq theorems: per layer the codec law (decoding the encoder image yields the payload, all payloads of the layer's domain) for base64, hex, UTF-16LE, XML references, percent-unescape, reversal, replacement, concatenation, caret escaping, byte arrays; "
             "the engine part for arbitrary registries (a decoded hit's children are a scan of its value with one less depth; flatten splices re-quoted children; chain law in Proofs/ChainProofs.v). Correspondence: encoder stacks of height 1-3 (quick) / 1-6 "
@@ -98,7 +98,7 @@ SHIPPED = (" The same statements are also proved AT THE SHIPPED SCANNER (Proofs/
 RT = " END-TO-END round trips WITH span selection by the model's matcher on the regenerated patterns (Proofs/RoundTrip*.v): for every payload / instance of the stated class, every neutral prefix and any admissible suffix, the form is reported as ONE node with exactly its span and the stated value"
 ADD = {
     "C01": " The assembly for the whole shipped registry is proved: scan_default_never_raises (every input, depth limit, keyword directory, tool oracle with non-negative pe_size: a tree or matcher-fuel exhaustion, never an exception); every registered @decoder name has a model (registered_names_modelled_b).",
-    "C02": RT + ": atob / Base64Decode / FromBase64String / FromHexString / unescape / UTF-16LE / decimal XML references / reverse / StrReverse / three replace dialects / n-ary concatenation / bare hex (both cases) / bare base64 (also line-wrapped) / the caret layer; the engine chain law also at scan_default itself.",
+    "C02": RT + ": atob / Base64Decode / FromBase64String / FromHexString / unescape / UTF-16LE / decimal XML references / reverse / StrReverse / three replace dialects / n-ary concatenation / bare hex (both cases) / bare base64 (also line-wrapped) / the caret layer; the engine chain law also at scan_default itself; and FULLY END-TO-END instances (Proofs/Dominance.v): for every payload the whole scan of unescape('...') and of unescape(atob(...)) with all 30 decoders and the shipped keyword lists is exactly the nested chain - dominance over every other searcher proved.",
     "C03": " REGISTRY PART (Proofs/DefaultWf.v): 29 of the 30 shipped decoders and every keyword searcher report only in-bounds, non-inverted spans on every input, so whole scans with find_powershell_strings replaced by any conforming decoder (or shell excluded) are in bounds at every level; find_powershell_strings is proved NOT to conform (F6 witness (68,35)): the carve-out is exact.",
     "C04": SHIPPED, "C05": SHIPPED + " Every child list of shipped-registry scans (decoder-supplied sub-structure included) is checked for laminarity on the implementation side.", "C06": SHIPPED,
     "C07": SHIPPED + " The first clause is also checked on the shipped registry by recording every call of a decoder function (through the registry and through the module globals).", "C08": SHIPPED + " Implementation side: every decoded node of shipped-registry scans is re-scanned on its own by the unwrapped scanner.",
@@ -111,7 +111,7 @@ ADD = {
     "C16": RT + ": the cmd result (find_cmd_strings_roundtrip) and the caret layer.",
 }
 NOTE_FIX = {
-    "C02": "PARTIAL: span selection is PROVED for 17 layer forms (RoundTrip*.v) and validated by the stacks for chr / byte arrays / hex XML references; dominance over the other shipped decoders' hits is validated, not proved.",
+    "C02": "PARTIAL: span selection is PROVED for the layer forms listed (RoundTrip*.v) and validated by the stacks for the remaining spellings; dominance over the other shipped decoders' hits is proved for the unescape and unescape-over-atob forms (Dominance.v) and validated for the other forms.",
     "C03": "In-bounds-ness of the hits the SHIPPED decoders report is proved (DefaultWf.v) for all but find_powershell_strings, which is the known finding F6 (also F19 for its pre-built child): excluded by their matchers, reported as KNOWN-FINDING.",
     "C11": "PARTIAL: instance selection is proved for the classes listed; for URLs with userinfo / port / escapes / IP hosts, UNC and device paths and PE files it is exercised by the probes. pefile is an oracle (section table).",
     "C13": "The converse is proved for all forms except character-reference line separators inside wrapped base64 (exercised); known finding F11 (upper-case hex with >= 10 leading digit pairs) is stated exactly as a theorem hypothesis and reported as KNOWN-FINDING.",
@@ -143,7 +143,7 @@ m = {
     "checks": [chk(p["id"]) for p in props if p["id"] in CHECKS],
     "not_applicable": [{"property_id": p["id"], "reason": "check still being built in this session (model exists or is in progress; will be claimed)"}
                        for p in props if p["id"] not in CHECKS],
-    "notes": "See DESIGN.md (section 11 = as built). known_findings.json lists the open findings (F6, F19, F11) and the 20 'fix:' commits made in /repo (F1-F5, F7-F10, F12-F16, F18, F20-F25); seeded/ holds 100 confirmed seeded changes, all caught.",
+    "notes": "See DESIGN.md (section 11 = as built). known_findings.json lists the open findings (F6, F19, F11, F26) and the 20 'fix:' commits made in /repo (F1-F5, F7-F10, F12-F16, F18, F20-F25); seeded/ holds 120 confirmed seeded changes, all caught.",
 }
 json.dump(m, open(os.path.join(VERIF, "MANIFEST.json"), "w"), indent=1)
 print("checks:", [c["property_id"] for c in m["checks"]])
